@@ -20,7 +20,7 @@ theorem scannerDigitVal_eq (c : Nat) : Gen.C09.scannerDigitVal c = NumLit.digitV
 theorem surrogates : Gen.C09.surHigh = 0xD800 ∧ Gen.C09.surLow = 0xDC00 ∧ Gen.C09.surEnd = 0xE000 := by
   decide
 
-/-- the three sentinels an overflowing `\\U` escape can collide with (model: 2^32-1, -2, -3) -/
+/-- the three sentinels of the unquote loop are negative (an overflowing `\\U` is rejected by `v < 0`) -/
 theorem sentinels : Gen.C09.terminatedByQuote = -1 ∧ Gen.C09.terminatedByExpr = -2 ∧
     Gen.C09.escapedNewline = -3 := by decide
 
@@ -35,7 +35,7 @@ theorem pin_literal_Form_appendEscaped : Gen.C09.pin_literal_Form_appendEscaped 
 theorem pin_literal_Form_appendEscapedRune : Gen.C09.pin_literal_Form_appendEscapedRune = "e0ff2bfd13206a30" := by decide
 theorem pin_literal_Form_appendEscape : Gen.C09.pin_literal_Form_appendEscape = "c346718b56327bb7" := by decide
 theorem pin_literal_Form_isPrint : Gen.C09.pin_literal_Form_isPrint = "3d316aeedf9d6502" := by decide
-theorem pin_literal_Form_singleLineHashCount : Gen.C09.pin_literal_Form_singleLineHashCount = "3f8b3463c6e78619" := by decide
+theorem pin_literal_Form_singleLineHashCount : Gen.C09.pin_literal_Form_singleLineHashCount = "9a4778e0d4d7b936" := by decide
 theorem pin_literal_Form_requiredHashCount : Gen.C09.pin_literal_Form_requiredHashCount = "4eb9d80ad5e3db37" := by decide
 theorem pin_literal_Unquote : Gen.C09.pin_literal_Unquote = "7b1fcfe81d6cf8c0" := by decide
 theorem pin_literal_ParseQuotes : Gen.C09.pin_literal_ParseQuotes = "1a310404c68d538c" := by decide
@@ -43,7 +43,7 @@ theorem pin_literal_QuoteInfo_Unquote : Gen.C09.pin_literal_QuoteInfo_Unquote = 
 theorem pin_literal_hasClosingDelimPrefix : Gen.C09.pin_literal_hasClosingDelimPrefix = "85d7628bc292aca8" := by decide
 theorem pin_literal_skipWhitespaceAfterNewline : Gen.C09.pin_literal_skipWhitespaceAfterNewline = "d005110dccadd904" := by decide
 theorem pin_literal_isSimple : Gen.C09.pin_literal_isSimple = "0526fd3c4a39e411" := by decide
-theorem pin_literal_unquoteChar : Gen.C09.pin_literal_unquoteChar = "50b01fedbb7a0c20" := by decide
+theorem pin_literal_unquoteChar : Gen.C09.pin_literal_unquoteChar = "eab3a8cb37686ae3" := by decide
 theorem pin_literal_unhex : Gen.C09.pin_literal_unhex = "e828f60dd9a61aa5" := by decide
 theorem pin_literal_ParseNum : Gen.C09.pin_literal_ParseNum = "f62ad6ae0fe132dc" := by decide
 theorem pin_literal_NumInfo_next : Gen.C09.pin_literal_NumInfo_next = "fec08a8bae3fc87b" := by decide
